@@ -3,6 +3,8 @@ package harness
 // C05 — enforcement follows the estimate: strategy limit and shares track every update.
 
 import (
+	"github.com/platinummonkey/go-concurrency-limits/limiter"
+	"pgregory.net/rapid"
 	"testing"
 
 	"verifharness/kit"
@@ -14,5 +16,57 @@ func TestC05_enforcement(t *testing.T) {
 		ID: "C05", Quick: 2500, Thor: 300_000,
 		Rule: "DefaultLimiter over every strategy kind (constructed with any limit: positive, non-positive, or equal to the first estimate) with a scripted estimate trajectory (incl. 0, negative, repeats, values around 2^15, 2^16 and up to 2^31-1) or a real algorithm; right after construction and after every event strategy limit == max(1, estimate), every partition share == max(1, ceil(limit*fraction)), and the limit / limit.partition gauges agree; non-trivial = >=2 limit changes incl. a value < 1 or a repeat",
 		Gen:  genDL("c05"), Run: func(t *testing.T, c dlCase) kit.Outcome { return runDL(t, c, "c05") },
+	})
+}
+
+// ---- the "with defaults" constructor -----------------------------------------------------------------------
+//
+// NewDefaultLimiterWithDefaults builds its own (Vegas) limit. Whatever that limit's initial estimate is, the
+// strategy handed in - constructed with any limit of its own - must enforce it right after construction, and
+// its partitions must be sized from it. The estimate is read through the limiter (EstimatedLimit), never assumed.
+
+type c05dCase struct {
+	Strategy  string  `json:"strategy"`
+	StratInit int     `json:"strat_init"`
+	PartInit  int     `json:"part_init"`
+	FracA     float64 `json:"frac_a"`
+}
+
+func TestC05_defaults_constructor(t *testing.T) {
+	kit.RequireMode(t, "std")
+	kit.Check(t, kit.Prop[c05dCase]{
+		ID: "C05", Quick: 300, Thor: 20_000,
+		Rule: "NewDefaultLimiterWithDefaults over every strategy kind constructed with a generated limit of its own (incl. non-positive): right after construction the strategy enforces max(1, limiter.EstimatedLimit()) and every partition share is max(1, ceil(limit*fraction)); non-trivial = the strategy was constructed with another limit than the estimate",
+		Gen: func(t *rapid.T) c05dCase {
+			return c05dCase{Strategy: rapid.SampledFrom([]string{"simple", "precise", "lookup", "predicate"}).Draw(t, "strategy"),
+				StratInit: rapid.OneOf(rapid.IntRange(-3, 60), rapid.SampledFrom([]int{1, 20, 1000})).Draw(t, "stratInit"),
+				PartInit:  rapid.SampledFrom([]int{1, 0, 4, 25}).Draw(t, "partInit"),
+				FracA:     rapid.SampledFrom([]float64{0.5, 0.1, 0.3, 1.0 / 3}).Draw(t, "fracA")}
+		},
+		Run: func(_ *testing.T, c c05dCase) kit.Outcome {
+			dc := dlCase{Strategy: c.Strategy, StratInit: c.StratInit, PartInit: c.PartInit, FracA: c.FracA}
+			b := &dlBuilt{reg: newRecRegistry(), present: append([]string(nil), dlBins...)}
+			st, err := buildDLStrategy(dc, b)
+			if err != nil {
+				return kit.Outcome{Harness: err.Error()}
+			}
+			lim, err := limiter.NewDefaultLimiterWithDefaults("d", st, nil, b.reg)
+			if err != nil {
+				return kit.Outcome{Harness: err.Error()}
+			}
+			est := lim.EstimatedLimit()
+			want := maxInt(est, 1)
+			if got := b.stratLimit(); got != want {
+				return kit.Viol(c.Strategy+":stale-limit", "right after NewDefaultLimiterWithDefaults: strategy (constructed with %d) enforces %d, the limiter's estimate is %d", c.StratInit, got, est)
+			}
+			if b.lookup != nil || b.pred != nil {
+				for i, n := range dlBins {
+					if got, w := b.binLimit(i), dlShare(want, dc.frac(n)); got != w {
+						return kit.Viol(c.Strategy+":stale-share", "right after NewDefaultLimiterWithDefaults: partition %q share is %d, want max(1,ceil(%d*%v))=%d", n, got, want, dc.frac(n), w)
+					}
+				}
+			}
+			return kit.Outcome{NonTrivial: c.StratInit != est, Labels: []string{"strategy:" + c.Strategy}}
+		},
 	})
 }
